@@ -78,11 +78,105 @@ def run(e: Engine, rep: Report):
     rep.floor('V1', 4, 'recv_into sites')
 
 
+class _ModFlow:
+    """Values of locals / parameters inside one module, followed to their
+    origins: a local assigned once stands for its value, a parameter for the
+    argument at every call site in the module (bounded depth)."""
+
+    def __init__(self, e: Engine, m):
+        self.e = e
+        self.m = m
+        self.funcs = [f for f in e.p.functions.values() if f.module is m]
+
+    def callers(self, f):
+        out = []
+        for g in self.funcs:
+            for n in walk_own(g.node):
+                if not isinstance(n, ast.Call):
+                    continue
+                fn = n.func
+                nm = fn.id if isinstance(fn, ast.Name) else (
+                    fn.attr if isinstance(fn, ast.Attribute) else None)
+                if nm == f.name:
+                    out.append((g, n))
+        return out
+
+    def arg_for(self, f, call, pname):
+        params = list(f.params)
+        if f.kind in ('method', 'classmethod') and \
+                isinstance(call.func, ast.Attribute):
+            params = params[1:]
+        if pname not in params:
+            return None
+        i = params.index(pname)
+        if i < len(call.args) and not any(
+                isinstance(a, ast.Starred) for a in call.args[:i + 1]):
+            return call.args[i]
+        for k in call.keywords:
+            if k.arg == pname:
+                return k.value
+        return None
+
+    def leaves(self, f, x, depth=0, seen=()):
+        """[(function, expression)] the value of x in f may originate from"""
+        if depth > 5:
+            return [(f, x)]
+        if isinstance(x, ast.Name):
+            stores = [n for n in walk_own(f.node) if isinstance(n, ast.Name)
+                      and n.id == x.id and isinstance(n.ctx, ast.Store)]
+            if x.id in f.params and not stores:
+                out = []
+                for g, call in self.callers(f):
+                    a = self.arg_for(f, call, x.id)
+                    if a is None or (g.qname, x.id) in seen:
+                        return [(f, x)]
+                    out += self.leaves(g, a, depth + 1,
+                                       seen + ((f.qname, x.id),))
+                return out or [(f, x)]
+            if stores and x.id not in f.params:
+                # every assignment counts (flow-insensitive union)
+                vals = []
+                for st in stores:
+                    a = [a for a in walk_own(f.node)
+                         if isinstance(a, ast.Assign) and
+                         len(a.targets) == 1 and a.targets[0] is st]
+                    if not a:
+                        return [(f, x)]
+                    vals.append(a[0].value)
+                out = []
+                for v in vals:
+                    out += self.leaves(f, v, depth + 1, seen)
+                return out
+        return [(f, x)]
+
+    def enclosing_loops(self, f, node, depth=0):
+        """[(function, While)] loops around `node`: in f, else around every
+        call of f (followed upwards).  None when some path to the node runs
+        through no loop at all."""
+        ws = [w for w in walk_own(f.node) if isinstance(w, ast.While)
+              and any(x is node for x in ast.walk(w))]
+        if ws:
+            return [(f, w) for w in ws]
+        if depth > 4:
+            return None
+        cs = self.callers(f)
+        if not cs:
+            return None
+        out = []
+        for g, call in cs:
+            r = self.enclosing_loops(g, call, depth + 1)
+            if r is None:
+                return None
+            out += r
+        return out
+
+
 def v1(e: Engine, rep: Report):
     m = e.p.modules.get(MOD)
     if m is None:
         rep.error('anchor vanished: module ' + MOD)
         return
+    mf = _ModFlow(e, m)
     for f in e.p.functions.values():
         if f.module is not m:
             continue
@@ -95,21 +189,6 @@ def v1(e: Engine, rep: Report):
         if not calls:
             continue
         rep.functions.add(f.qname)
-        # bytearray sizes
-        sizes = {}
-        for n in walk_own(f.node):
-            if isinstance(n, ast.Assign) and isinstance(n.value, ast.Call) \
-                    and ast.unparse(n.value.func) == 'bytearray' and \
-                    isinstance(n.targets[0], ast.Name) and n.value.args:
-                sizes[n.targets[0].id] = n.value.args[0]
-        views = {}
-        for n in walk_own(f.node):
-            if isinstance(n, ast.Assign) and isinstance(n.targets[0],
-                                                        ast.Name):
-                src = ast.unparse(n.value)
-                for b in sizes:
-                    if src.startswith('memoryview(%s)' % b):
-                        views[n.targets[0].id] = b
         for c in calls:
             rep.evaluations += 1
             if c.func.attr != 'recv_into':
@@ -119,38 +198,68 @@ def v1(e: Engine, rep: Report):
                     'bytes behind the header' % c.func.attr, loc=f.loc(c))
                 continue
             ok_count = len(c.args) >= 2
+            # destination: a view of a buffer allocated with the protocol's
+            # size - wherever that allocation is
             dest = c.args[0] if c.args else None
-            buf = views.get(dest.id) if isinstance(dest, ast.Name) else None
-            bound = sizes.get(buf)
-            want = BUFFER_BOUNDS.get(f.name)
-            ok_size = bound is not None
-            if want is not None:
-                bv = bound
-                if isinstance(bv, (ast.Name, ast.Attribute)):
-                    # a named constant (module / class level)
-                    nm = bv.id if isinstance(bv, ast.Name) else bv.attr
-                    cand = m.globals.get(nm)
-                    if cand is None and f.cls is not None:
-                        _, cand = e.p.lookup_class_attr(f.cls.qname, nm)
-                    if cand is not None:
-                        bv = cand
-                ok_size = isinstance(bv, ast.Constant) and \
-                    bv.value == want
-            elif bound is not None:
-                # v2: the size is the declared / fixed length parameter
-                ok_size = isinstance(bound, ast.Name) and \
-                    bound.id in f.params
-            # enclosing loop bounded by the buffer size
-            loops = [w for w in walk_own(f.node) if isinstance(w, ast.While)
-                     and any(x is c for x in ast.walk(w))]
-            ok_loop = bool(loops) and all(
-                isinstance(w.test, ast.Compare) and
-                isinstance(w.test.ops[0], ast.Lt) and (
-                    (buf is not None and 'len(%s)' % buf in
-                     ast.unparse(w.test.comparators[0])) or
-                    isinstance(w.test.comparators[0], ast.Constant))
-                for w in loops)
-            # the count never exceeds what is left of the buffer
+            allocs = []           # (function, size expression)
+            ok_size = dest is not None
+            for f1, x in (mf.leaves(f, dest) if dest is not None else []):
+                src = ast.unparse(x)
+                if not (src.startswith('memoryview(') and
+                        isinstance(x, ast.Subscript)):
+                    ok_size = False
+                    continue
+                inner = x.value.args[0] if isinstance(x.value, ast.Call) \
+                    and x.value.args else None
+                for f2, b in mf.leaves(f1, inner):
+                    if isinstance(b, ast.Call) and \
+                            ast.unparse(b.func) == 'bytearray' and b.args:
+                        allocs.append((f2, b.args[0]))
+                    else:
+                        ok_size = False
+            ok_size = ok_size and bool(allocs)
+            bufs = set()
+            for f2, bound in allocs:
+                want = BUFFER_BOUNDS.get(f2.name)
+                if want is not None:
+                    bv = bound
+                    if isinstance(bv, (ast.Name, ast.Attribute)):
+                        # a named constant (module / class level)
+                        nm = bv.id if isinstance(bv, ast.Name) else bv.attr
+                        cand = m.globals.get(nm)
+                        if cand is None and f2.cls is not None:
+                            _, cand = e.p.lookup_class_attr(f2.cls.qname, nm)
+                        if cand is not None:
+                            bv = cand
+                    ok_size = ok_size and isinstance(bv, ast.Constant) and \
+                        bv.value == want
+                else:
+                    # v2: the size is the declared / fixed length parameter
+                    ok_size = ok_size and isinstance(bound, ast.Name) and \
+                        bound.id in f2.params
+            # every way to this read runs inside a loop that ends when the
+            # buffer (or a constant number of bytes) is full
+            loops = mf.enclosing_loops(f, c)
+
+            def bounded(f3, w):
+                t = w.test
+                if not (isinstance(t, ast.Compare) and len(t.ops) == 1 and
+                        isinstance(t.ops[0], ast.Lt)):
+                    return False
+                for f4, b in mf.leaves(f3, t.comparators[0]):
+                    if isinstance(b, ast.Constant):
+                        continue
+                    if isinstance(b, ast.Call) and \
+                            ast.unparse(b.func) == 'len' and b.args:
+                        # len(<the buffer>)
+                        ok = all(isinstance(bb, ast.Call) and
+                                 ast.unparse(bb.func) == 'bytearray'
+                                 for _, bb in mf.leaves(f4, b.args[0]))
+                        if ok:
+                            continue
+                    return False
+                return True
+            ok_loop = bool(loops) and all(bounded(f3, w) for f3, w in loops)
             cnt = ast.unparse(c.args[1]) if ok_count else ''
             rep.check(ok_count and ok_size and ok_loop, 'V1', f.qname,
                       'bounded read `%s`' % ' '.join(ast.unparse(c).split()),
@@ -160,8 +269,8 @@ def v1(e: Engine, rep: Report):
                       'bytes can be consumed from the connection'
                       % (ok_count, ok_size, ok_loop), loc=f.loc(c),
                       reason='recv_into(view of bytearray(%s), %s) in a '
-                      'bounded loop' % (ast.unparse(bound) if bound
-                                        is not None else '?', cnt))
+                      'bounded loop' % (', '.join(sorted(
+                          {ast.unparse(b) for _, b in allocs})) or '?', cnt))
     # V1b: the running length advances by what recv_into RETURNED
     for f in e.p.functions.values():
         if f.module is not m:
@@ -185,6 +294,19 @@ def v1(e: Engine, rep: Report):
                             isinstance(y, ast.Name) and y.id == rv
                             for y in ast.walk(x.slice.upper)):
                     used = True
+                # ... or the position is kept as a number: pos + read_n
+                if isinstance(x, (ast.Return, ast.Assign, ast.AugAssign)) \
+                        and x is not n and x.value is not None and any(
+                            isinstance(y, ast.BinOp) and
+                            isinstance(y.op, ast.Add) and any(
+                                isinstance(z, ast.Name) and z.id == rv
+                                for z in (y.left, y.right))
+                            for y in ast.walk(x.value)):
+                    used = True
+                if isinstance(x, ast.AugAssign) and \
+                        isinstance(x.op, ast.Add) and \
+                        isinstance(x.value, ast.Name) and x.value.id == rv:
+                    used = True
             rep.evaluations += 1
             rep.check(used, 'V1', f.qname,
                       'progress is measured by the value recv_into returned',
@@ -193,7 +315,8 @@ def v1(e: Engine, rep: Report):
                       'data read so far: after a short read, bytes that '
                       'were never received are taken as header bytes / the '
                       'reader runs past the header' % rv, loc=f.loc(n),
-                      reason='returned count used in the view slice')
+                      reason='returned count used in the view slice / '
+                      'added to the position')
     # V1c: the declared length is read unmodified
     pctx = e.ctx(V2 + '.process_pp_v2')
     fn2 = pctx.func.node
